@@ -218,7 +218,7 @@ pub fn replay(path: &str) -> i32 {
     let prop = j["property"].as_str().unwrap_or("");
     let kind = j["kind"].as_str().unwrap_or("");
     let mut st = Stats::default();
-    let vs = scen.exec(&plan, &mut st);
+    let vs = exec_guarded(scen, &plan, &mut st);
     println!("replay of {}: scenario={} doc={:?}", path, plan.scenario, lossy(&plan.doc));
     for v in &vs {
         println!("  observed: property={} kind={} — {}", v.prop, v.kind, v.detail);
@@ -229,6 +229,21 @@ pub fn replay(path: &str) -> i32 {
     } else {
         println!("NOT REPRODUCED: property={} kind={} did not occur on this tree", prop, kind);
         0
+    }
+}
+
+/// exec with stray library panics turned into violations (as the search does)
+pub fn exec_guarded(scen: &dyn Scenario, plan: &Plan, st: &mut Stats) -> Vec<Violation> {
+    match guard(|| scen.exec(plan, st)) {
+        Ok(vs) => vs,
+        Err(p) => match p.kind {
+            PanicKind::Harness | PanicKind::Exec => harness_fail("scenario execution", &p, plan),
+            _ => vec![Violation::new(
+                scen.panic_prop(),
+                if p.kind == PanicKind::Library { "panic" } else { "non-termination" },
+                format!("panic at {}: {}", p.loc, p.msg),
+            )],
+        },
     }
 }
 
@@ -498,6 +513,7 @@ pub fn shrink(scen: &dyn Scenario, plan: &Plan, v: &Violation) -> (Plan, Violati
             let r = guard(|| scen.exec(&c, &mut scratch));
             let vs = match r {
                 Ok(vs) => vs,
+                Err(p) if p.kind == PanicKind::Library => vec![Violation::new(scen.panic_prop(), "panic", format!("panic at {}: {}", p.loc, p.msg))],
                 Err(_) => continue, // candidate broke the harness' own assumptions: skip it
             };
             if let Some(found) = vs.into_iter().find(|x| x.prop == v.prop && x.kind == v.kind) {
@@ -580,7 +596,14 @@ pub fn search(spec: &CheckSpec, tier: Tier, base_seed: u64, workers: usize, scal
                             st.plans += 1;
                             let vs = match r {
                                 Ok(vs) => vs,
-                                Err(p) => harness_fail("scenario execution", &p, &plan),
+                                Err(p) => match p.kind {
+                                    PanicKind::Harness | PanicKind::Exec => harness_fail("scenario execution", &p, &plan),
+                                    _ => vec![Violation::new(
+                                        scen.panic_prop(),
+                                        if p.kind == PanicKind::Library { "panic" } else { "non-termination" },
+                                        format!("panic at {}: {}", p.loc, p.msg),
+                                    )],
+                                },
                             };
                             if st.samples.len() < 2 && run % 97 == 3 {
                                 st.samples.push(sample_json(&plan));
